@@ -233,7 +233,12 @@ def check_detector(repo: Repo, res: Result) -> None:
     ld = repo.cls(LAYER_DETECTOR, "LayerRuleViolationDetector")
     ld_mro = {c.fq for c in repo.mro(ld)}
 
-    allow = family(repo, ld)
+    fam_ = family(repo, ld)
+
+    def allow(caller: FuncInfo, callee: FuncInfo) -> bool:
+        # helpers of the detector's class family, module-level functions, and the methods of *private helper classes* that live
+        # next to the detector (`self._rule_object_layers.requested_but_never_accessed(data)`): part of the same judgement
+        return fam_(caller, callee) or (callee.cls is not None and callee.cls.name.startswith("_") and callee.module.name == ld.module.name)
 
     k3 = k4 = 0
     seen_orient: set[str] = set()
@@ -246,6 +251,12 @@ def check_detector(repo: Repo, res: Result) -> None:
         data = m.param_names[2]
         src = "E" if b.source == "explicit" else "O"
         view = dview(repo, m, ld, allow, tag="ld")
+        if not getattr(view, "_records_split", False):
+            from .c05_functional import flatten_groups, split_records
+
+            view._records_split = True  # type: ignore[attr-defined]
+            split_records(repo, view)  # per-layer records (dataclass in a defaultdict) -> one table per field
+            flatten_groups(view)  # a list of groups read group by group -> the list of their elements
         sh = Shapes(repo, T, view, {data: {D(src)}}, recv=ld, allow=allow)
         prods = _result_productions(view, sh)
         keyp = [p for p in prods if p.elt is not None and any(t[0] in ("K", "KS") for t in sh.tags(p.elt))]
